@@ -294,6 +294,19 @@ def check_aborts(ctx):
                 if any(pred(a) for a in atoms):
                     cause = name
                     break
+            if cause is None:
+                # `else abort()` after every enumerator of an enum was tested: the same dead default that clang
+                # prunes from a switch over that enum
+                excluded = {}
+                for a in atoms:
+                    if a[0] == "!=" and a[2].lstrip("-").isdigit():
+                        excluded.setdefault(a[1], set()).add(int(a[2]))
+                enum_sets = {}
+                for en, info in P.enums.items():
+                    enum_sets.setdefault(info.get("enum"), set()).add(int(info["v"]))
+                for var, vals in excluded.items():
+                    if any(vs and vs <= vals for vs in enum_sets.values() if len(vs) >= 2 and vs == vals):
+                        cause = "value outside its enumeration (every enumerator was excluded)"
             bad_cause = None
             for a in atoms:
                 nm = a[1].split("(")[0]
